@@ -2,6 +2,7 @@
 
 from __future__ import annotations
 
+import json
 import re
 from typing import TYPE_CHECKING
 
@@ -34,6 +35,27 @@ RE_FLOW = re.compile(
     r"<(\/?)(iframe|noembed|noframes|plaintext|script|style|title|textarea|xmp)(?=[\t\n\f\r />])",
     re.IGNORECASE,
 )
+
+
+# values that the directive option syntax reads back unchanged as a plain scalar
+_RE_PLAIN_OPTION = re.compile(
+    r"[A-Za-z0-9_./][A-Za-z0-9_.%/-]*(?: +[A-Za-z0-9_.%/-]+)*"
+)
+
+
+def _quote_option(value: str | None) -> str:
+    """Render an HTML attribute value in the directive option syntax,
+    quoting it if it could otherwise be misread (comments, quotes, new lines, ...).
+    """
+    value = value or ""
+    if _RE_PLAIN_OPTION.fullmatch(value):
+        return value
+    return (
+        json.dumps(value, ensure_ascii=False)
+        .replace("\x85", "\\N")
+        .replace("\u2028", "\\L")
+        .replace("\u2029", "\\P")
+    )
 
 
 def default_html(text: str, source: str, line_number: int) -> list[nodes.Element]:
@@ -91,7 +113,7 @@ def html_to_nodes(
                     )
                 ]
             content = "\n".join(
-                f":{k}: {v}"
+                f":{k}: {_quote_option(v)}"
                 for k, v in sorted(child.attrs.items())
                 if k in OPTION_KEYS_IMAGE
             )
@@ -115,7 +137,7 @@ def html_to_nodes(
             )
 
             options = "\n".join(
-                f":{k}: {v}"
+                f":{k}: {_quote_option(v)}"
                 for k, v in sorted(child.attrs.items())
                 if k in OPTION_KEYS_ADMONITION
             ).rstrip()
